@@ -136,4 +136,14 @@ TEXT["C14"] = {
     "note": _TB + "serde_json/ryu's decimal writer and reader are third-party code: their round trip is a hypothesis of the float theorems, checked on every generated finite float, not proved. A finite JSON number beyond a float type's range is read as IEEE conversion does (infinity), which the check accepts as the code's documented cast rather than demanding rejection.",
     "technique": "Lean 4 proofs of JSON print/parse inversion, float widening/narrowing and fill-value metadata round trip + exhaustive 8/16-bit and stratified wide differential run",
 }
+TEXT["C05"] = {
+    "level": "Machine-checked proof about the partial-encoding algorithms as implemented: a sharding partial encode from an absent value, and from ANY well-formed tight shard (either index location, "
+             "either index byte order, with/without index checksum), produces a value that decodes to exactly the updated inner chunks and is a legal shard (a sharper variant states exactly when the result "
+             "stays tight); unsharded chains rewrite the value to exactly the encoding of the updated chunk; a partial store write never truncates. The same model PROVES the one open defect: with the index at "
+             "the end, an update that shrinks the live data leaves a stale tail that readers take for the index (pinned witness, kernel-decided). On the real code random histories of partial writes through "
+             "store_chunk_subset/store_array_subset with partial encoding enabled run on sharded and unsharded chains; after every step the raw stored value is judged (exact encoding for modelled chains, "
+             "well-formed shard + sentinel check otherwise) and all elements are read back.",
+    "note": _TB + "Partial: one KNOWN FINDING (index-at-end stale tail, F-C05-K1) is reported as KNOWN-FINDING, not repaired (repair needs a truncating store operation). Concurrent partial writers are out of scope of the model.",
+    "technique": "Lean 4 proofs over a model of the sharding/default partial encoders (decode + well-formedness preservation, pinned defect witness) + raw-stored-value differential histories",
+}
 NOT_YET = {}
